@@ -316,7 +316,7 @@ def cbmc_cmd(gb, q, reach):
         for pat, n in (q.get('unwindset') or {}).items():
             if pat in lid and (best is None or len(pat) > len(best[0])): best = (pat, n)
         # literal-size memset/memcpy helpers unroll concretely; give them room unless the spec says otherwise
-        us[lid] = best[1] if best else (max(q.get('unwind', 2), 140) if lid.startswith('verif_mem') else q.get('unwind', 2))
+        us[lid] = best[1] if best else (max(q.get('unwind', 2), 140) if lid.startswith('verif_memset_v') else q.get('unwind', 2))
     if us: cmd += ['--unwindset', ','.join('%s:%d' % kv for kv in us.items())]
     cmd += ['--unwind', str(q.get('rec_unwind', 2))]
     if reach or q.get('no_unwinding_assertions'):
